@@ -416,6 +416,17 @@ pub fn generate(tier: Tier, rng: &mut Rng) -> Vec<Case> {
             push_case(&mut out, &spec, format!("[1, 2].map(x, {m}.{body})"), None, vec!["failing-body-over-map"]);
         }
     }
+    // predicates whose result is not a bool: macros decide by truthiness exactly as the conditional
+    // operator does (the model decides), and ranges written as literals whose elements mention a
+    // name equal to the iteration variable (bound outside: the range is evaluated before the loop)
+    for src in [
+        "[0, 1, 2, 3].filter(x, x % 2)", "['', 'a', ''].exists_one(s, s)", "[[1, 2], [0], [5]].filter(l, l.filter(y, y > 1))", "[0, 1, 2].all(x, x)", "[0, 0, 3].exists(x, x)", "[0, 1, 2].map(x, x, x * 10)",
+        "[0.0, 1.5].filter(d, d)", "[0u, 2u].filter(u, u)", "[null, 1].filter(n, n)", "[[], [0]].filter(l, l)", "[{}, {1: 1}].filter(e, e)", "['', 'x'].map(s, s, s + '!')", "[1, 2, 3].exists_one(x, x - 1)", "[b'', b'a'].filter(b, b)",
+        "[x + 1, x + 2].map(x, x)", "[x + 1, x + 2].exists(x, x == 7)", "[10, 20].map(x, [x + 1, x + 2].map(x, x))", "[5, 5].all(k, [k + 1, k + 1].all(k, k == 6))", "[y, y + 1, y + 2].filter(y, y > 5)", "[x, x].map(x, x + 1)",
+        "[x, y, k].map(k, k)", "[[x], [x, x]].map(x, size(x))", "{x: 1}.map(x, x)", "[x + 1, t(x) + 2].map(x, t(x))",
+    ] {
+        push_case(&mut out, &spec, src.to_string(), None, vec!["truthiness-and-ranges"]);
+    }
     // exists_one over ranges with several matches followed by further elements, some of which fail
     // or are logged: every element is visited, whatever the count so far
     for l in ["[1, 2, 3, 4, 0, 5]", "[2, 2, 2, 0]", "[5, 6, 7, 8, 9]", "[0, 3, 3, 0, 3]", "{1: 0, 2: 0, 3: 0}", "[1, 2, 3, 4, 5, 6, 7, 8]"] {
